@@ -357,6 +357,8 @@ Definition table_exceptions : list N :=
        OP_LOAD_SELF/OWNER_VAR: NULL self / owner: Pop, skipField, throw; else loadTop;
        OP_LOAD_FIELD_VAR: Pop a; then catch { if (!eventCalled) { Pop; skipField } }: 2 pops when the
          value is no listener or NULL, and 2 pops when loadTop's setter throws (loadTop's catch pops);
+         when a is a group (arraysize > 1) loadTopGroup runs - see [load_field_group] below: also 2 pops
+         and the code position behind the operands, whichever member fails;
        OP_LOAD_STORE_SELF/OWNER_VAR: skipField before `self is NULL`; loadStoreTop keeps the top;
        OP_STORE_SELF/OWNER_VAR: Push, skipField, throw; storeTop pushes before the getter;
        OP_STORE_FIELD, OP_STORE_FIELD_REF: catch { if (!operandsRead) skipField; ... } keeps the top. *)
@@ -369,7 +371,7 @@ Definition err_table : list (N * list (N * N)) := [
   (OP_LOAD_GAME_VAR, [(1, 0)]); (OP_LOAD_LEVEL_VAR, [(1, 0)]); (OP_LOAD_LOCAL_VAR, [(1, 0)]);
   (OP_LOAD_PARM_VAR, [(1, 0)]); (OP_LOAD_GROUP_VAR, [(1, 0)]);
   (OP_LOAD_SELF_VAR, [(1, 0)]); (OP_LOAD_OWNER_VAR, [(1, 0)]);
-  (OP_LOAD_FIELD_VAR, [(2, 0); (2, 0)]);
+  (OP_LOAD_FIELD_VAR, [(2, 0); (2, 0); (2, 0)]);   (* no listener or NULL; setter throws; a member of a group fails *)
   (OP_LOAD_STORE_GAME_VAR, [(1, 1)]); (OP_LOAD_STORE_LEVEL_VAR, [(1, 1)]); (OP_LOAD_STORE_LOCAL_VAR, [(1, 1)]);
   (OP_LOAD_STORE_PARM_VAR, [(1, 1)]); (OP_LOAD_STORE_GROUP_VAR, [(1, 1)]);
   (OP_LOAD_STORE_SELF_VAR, [(1, 1)]); (OP_LOAD_STORE_OWNER_VAR, [(1, 1)]);
@@ -393,6 +395,46 @@ Definition exec_err (p : program) (pc : N) (s : astate) : list config :=
           end
       end
   end.
+
+(* OP_LOAD_FIELD_VAR applied to a group of objects (ScriptVM::loadTopGroup), micro-step by
+   micro-step.  The instruction has popped the target a (height h - 1, the assigned value on top)
+   and m_CodePos = operands = pc + 1.  For the members in the order they are visited (1..n when the
+   group is a constant array - which `$name` with several bearers now is -, n..1 otherwise):
+     a member that is gone is skipped;
+     listenerAt may throw (the element is no listener): nothing was pushed or read;
+     otherwise m_CodePos = operands, a copy of the value is pushed, loadTop reads the two operands
+     and pops the copy - also when the member's setter throws (its catch block pops).
+   At the end, and in the catch block before rethrowing: m_CodePos = operands; skipField(); Pop().
+   The opcode's own catch does nothing then (eventCalled is true). *)
+Inductive member :=
+| MLive            (* the setter succeeds (or the plain variable is set) *)
+| MDead            (* NULL: skipped *)
+| MNoListener      (* listenerAt throws *)
+| MSetterFails.    (* loadTop's setter throws *)
+
+Record gstate := mkG { gpos : N; gh : N; gmax : N }.
+
+(* (state, threw) after the loop over the members in the order they are visited *)
+Fixpoint group_loop (operands : N) (g : gstate) (ms : list member) : gstate * bool :=
+  match ms with
+  | [] => (g, false)
+  | MDead :: r => group_loop operands g r
+  | MNoListener :: _ => (g, true)
+  | MLive :: r =>
+      group_loop operands
+        (mkG (operands + sz_op_name_t + sz_op_evName_t) (gh g + 1 - 1) (N.max (gmax g) (gh g + 1))) r
+  | MSetterFails :: _ =>
+      (mkG (operands + sz_op_name_t + sz_op_evName_t) (gh g + 1 - 1) (N.max (gmax g) (gh g + 1)), true)
+  end.
+
+(* the whole instruction at pc with height h (>= 2: the target and the value): final code
+   position, final height, greatest height seen on the way, whether a script error is raised *)
+Definition load_field_group (pc h : N) (ms : list member) : option (N * N * N * bool) :=
+  if 2 <=? h then
+    let operands := pc + 1 in
+    let '(g, threw) := group_loop operands (mkG operands (h - 1) (h - 1)) ms in
+    Some (operands + sz_op_name_t + sz_op_evName_t, gh g - 1, gmax g, threw)
+  else None.
 
 (* an outcome of the table agrees with the normal path when the opcode's shape is the field shape
    with the same pops and pushes *)
